@@ -202,9 +202,16 @@ def run_system(ctx, res, seed, loop: bool):
         case = c06.gen_case(rng)
         case['kind'] = 'sin'   # nonlinear: samples need different numbers of sweeps
         case['mem'] = 2
+        if seed % 2 == 0:
+            # one sample whose coupling values are orders of magnitude larger than those of its batch companions
+            case['b'] = [bb if bb != 0 else 0.5 for bb in case['b']]
+            case['amp_sid'] = 0
+            res.hit('loop-batch-mixing-magnitudes')
         system = c06.build(case, c06.Log())
         N = 9
         x = {'sid': np.arange(N, dtype=float), 'rho': np.array([rng.choice([0.2, 0.5, 0.8, 1.3]) for _ in range(N)])}
+        if case.get('amp_sid') is not None:
+            x['rho'][0] = 0.8        # the large sample converges slowly: it is still iterating while the others finish
         kw = dict(max_fpi_iter=80, fpi_tol=1e-9, anderson_mem=case['mem'], normalized_inputs=False)
         mk = lambda: c06.build(case, c06.Log())   # noqa: E731
     else:
@@ -286,7 +293,7 @@ def run(ctx: core.Ctx, only=None) -> core.Result:
     lines, post = [], []
     items = [o.get('input', o) for o in only] if only is not None else core.corpus_cases('C10') + \
         [{'seed': ctx.rng.randrange(10 ** 6), 'what': 'comp'} for _ in range(ctx.scale(4, 40))] + \
-        [{'seed': ctx.rng.randrange(10 ** 6), 'what': w} for w in (['ff', 'loop', 'loop', 'nanchain'] * ctx.scale(1, 6))]
+        [{'seed': 2 * ctx.rng.randrange(10 ** 6) + (k_ % 2), 'what': w} for k_, w in enumerate(['ff', 'loop', 'loop', 'nanchain'] * ctx.scale(1, 6))]
     for it in items:
         with core.guarded(res, 'scenario-raised', it):
             if it.get('what', 'comp') == 'comp':
